@@ -31,6 +31,10 @@ type Ctx struct {
 	Repo repository.ClockedRepo
 	Raw  repository.ClockedRepo
 	Meta Meta
+	// Path of the repository and the decoration to apply to further handles the action opens
+	// itself (identity when the action is repeated).
+	Path string
+	Wrap func(repository.ClockedRepo) repository.ClockedRepo
 }
 
 // Scenario is one write path on one prepared repository.
@@ -121,7 +125,19 @@ func scenarios() []Scenario {
 		}
 		return nil
 	}
-	rebuild := func(c *Ctx) error { return bug.ClockLoader.Witnesser(c.Repo) }
+	// the clock files are missing and the repository is opened with git-bug's clock loader: the
+	// real OpenGoGitRepo decides what to rebuild; the repository handle it gives to the loader is
+	// decorated so that the loader's clock writes are crash points
+	rebuild := func(c *Ctx) error {
+		l := repository.ClockLoader{Clocks: bug.ClockLoader.Clocks, Witnesser: func(r repository.ClockedRepo) error {
+			return bug.ClockLoader.Witnesser(c.Wrap(r))
+		}}
+		r, err := repository.OpenGoGitRepo(c.Path, world.Namespace, []repository.ClockLoader{l})
+		if err != nil {
+			return err
+		}
+		return r.Close()
+	}
 
 	return []Scenario{
 		{Name: "create-bug", Base: "std", What: "bug.Create + Commit, one author", Act: createBug(false)},
@@ -195,8 +211,8 @@ func scenarios() []Scenario {
 		{Name: "merge-identities", Base: "identmerge", Idempotent: true, What: "identity.MergeAll: one new identity, one with a new version, one unchanged", Act: func(c *Ctx) error {
 			return drainMerge(identity.MergeAll(c.Repo, remoteName))
 		}},
-		{Name: "rebuild-clocks-1-bug", Base: "rebuild1", Idempotent: true, NoLoaders: true, What: "clock files missing, bug.ClockLoader rebuilds them (one bug)", Act: rebuild},
-		{Name: "rebuild-clocks-2-bugs", Base: "rebuild2", Idempotent: true, NoLoaders: true, What: "clock files missing, bug.ClockLoader rebuilds them (two bugs)", Act: rebuild},
+		{Name: "rebuild-clocks-1-bug", Base: "rebuild1", Idempotent: true, NoLoaders: true, What: "clock files missing, OpenGoGitRepo + bug.ClockLoader rebuild them (one bug)", Act: rebuild},
+		{Name: "rebuild-clocks-2-bugs", Base: "rebuild2", Idempotent: true, NoLoaders: true, What: "clock files missing, OpenGoGitRepo + bug.ClockLoader rebuild them (two bugs)", Act: rebuild},
 		{Name: "create-bug-clock-12", Base: "digits12", What: "bug.Create + Commit with a two-digit edit clock (12 -> 13)", Act: createBug(false)},
 		{Name: "commit-edit-clock-12", Base: "digits12", What: "Commit of an edit read earlier, two-digit edit clock", Act: edit("bug0", false, false)},
 		{Name: "read-bug-clock-12", Base: "digits12", Idempotent: true, What: "bug.Read of a one-pack bug, two-digit edit clock", Act: func(c *Ctx) error {
